@@ -256,6 +256,53 @@ def fault_cases(col, rng, n_exc):
                     'matrix_cells_per_fault': 28}, 'fault')
 
 
+class Raiser:
+    """callable raising the given exception object"""
+    def __init__(self):
+        self.exc = None
+        self.__name__ = 'raiser'
+
+    def __call__(self, *a, **kw):
+        raise self.exc
+
+    def __repr__(self):
+        return '<raiser>'
+
+
+def argument_position_faults(col, rng, n_exc):
+    """the fault is raised while an ARGUMENT is being evaluated: evaluated index, call argument, container literals (list, dict,
+    tuple, set, frozenset) in default= / Call / S(...) / Assign value, Invoke.specs, dict key given as Spec"""
+    from glom import Spec, Call, Invoke, S, Assign
+    f = Raiser()
+    sf = Spec(f)
+    target = {'d': {'k': 1, 'lst': [1, 2]}, 'fn': (lambda *a, **kw: (a, kw))}
+    shapes = [
+        ('T-index', lambda: T['d'][sf]), ('T-index-nested', lambda: T['d'][T['d']['lst'][sf]]), ('T-call-arg', lambda: T['fn'](sf)),
+        ('T-call-kwarg', lambda: T['fn'](k=sf)), ('T-call-tuple', lambda: T['fn']((sf, 1))), ('T-call-set', lambda: T['fn']({sf})),
+        ('T-arith', lambda: T['d']['k'] + sf), ('Call-args', lambda: Call(target['fn'], args=(sf,))),
+        ('Call-args-tuple', lambda: Call(target['fn'], args=((1, sf),))), ('Call-kwargs', lambda: Call(target['fn'], kwargs={'x': [sf]})),
+        ('Coalesce-default', lambda: Coalesce('zz', default=sf)), ('Coalesce-default-tuple', lambda: Coalesce('zz', default=(sf, 2))),
+        ('Coalesce-default-frozenset', lambda: Coalesce('zz', default=frozenset([sf]))), ('Coalesce-default-dict', lambda: Coalesce('zz', default={'k': sf})),
+        ('S-assign', lambda: (S(x=sf), S.x)), ('S-assign-tuple', lambda: (S(x=(sf,)), S.x)), ('Assign-value', lambda: Assign('d.new', sf)),
+        ('Assign-value-tuple', lambda: Assign('d.new', (sf, sf))), ('Invoke-specs', lambda: Invoke(target['fn']).specs(sf)),
+        ('dict-key-spec', lambda: {sf: 'd'}), ('Check-default', lambda: Check(type=int, default=(sf,))),
+        # (not Match(default=[Spec(f)]): inside Match a callable is a predicate, its exception is reported as a MatchError by design)
+    ]
+    always = [c for c in CATALOGUE if c[0] in ('StopIteration', 'KeyError', 'TypeError', 'IndexError')]
+    for name, mk in shapes:
+        for ename, mkexc in always + rng.sample(CATALOGUE, n_exc):
+            probe = mkexc()
+            for cell, kw in matrix(probe):
+                e = mkexc()
+                f.exc = e
+                import copy
+                got = call_base(G, {'d': {'k': 1, 'lst': [1, 2]}, 'fn': target['fn']}, mk(), **kw)
+                col.case(('arg-position', name, ename, cell), True)
+                col.count('faults_injected')
+                col.count('argument_position_faults')
+                judge_escape(col, e, got, kw, cell, 'fault while evaluating %s' % name, 'argument position ' + name)
+
+
 class Unreg:
     __slots__ = ()
 
@@ -304,5 +351,7 @@ def run(ctx):
     if ctx.shard == 0:
         glom_detected(col)
         col.require('glom_detected_runs', 500)
+    argument_position_faults(col, rng, 1 if not ctx.thorough else 6)
+    col.require('argument_position_faults', 500)
     for i in range(ctx.n(700, 4000)):
         fault_cases(col, rng, 3 if not ctx.thorough else 5)
